@@ -46,6 +46,17 @@ claim('C28',
       'One defect found and fixed (setocc range check, see known_findings.json).',
       'DESIGN.md 3/C28, 2.2')
 
+claim('C23',
+      'Bounded symbolic verification: the real conversion routines (pos2cart, unit2cart, cart2unit, cart2pos, incell, inhalf) '
+      'and symmetry actions (g_pos, g_vect, g_cart, g_direc, g_tensor, PairState.g, ClusterSite.g, GroupOp.__mul__/inv) are executed '
+      'on z3 terms for symbolic lattice vectors (integers), unit-cell coordinates, Cartesian points, directions and tensors; '
+      'for every listed crystal and every one of its operations all routes are compared with each other and with an independent '
+      'lattice-coordinate route, and products/inverses are checked to act as composition/inverse (QF_LIRA, decided for all values).',
+      'Floats as reals with the exact rational values of the library-computed constants, equalities to 1e-8; |R_k|<=1000 '
+      '(<=4 for Cartesian->unit round trips on lattices whose float inverse is inexact: solver limit); unit coordinates kept 1e-6 '
+      'below the cell boundary; crystals/operations enumerated; quick tier samples operation pairs for composition.',
+      'DESIGN.md 3/C23, 2.4')
+
 na('C01', 'exact oracle is an infinite-state pair Markov chain reached through Brillouin-zone quadrature, LAPACK and hyp1f1/expi; '
           'agreement only to integration accuracy: no algebraic statement a solver can decide (DESIGN 5)')
 na('C06', 'identities hold only for the true lattice Green function of the omega0 network (numerical k-space integration); '
